@@ -496,6 +496,8 @@ def c14(v):
                 return f"{sink}: terminal event {t[1]} has no stop_reason tag"
             if r is not None and tags["stop_reason"] != r:
                 return f"{sink}: terminal stop_reason {tags['stop_reason']} but {r} was delivered"
+            if r is None and v.delivery[0] == "outcome":
+                return f"{sink}: terminal event {t[1]} carries stop_reason {tags['stop_reason']} but the outcome has stop_reason=None"
             if t[1] == "aborted":
                 if set(tags) - {"stop_reason", "operation"}:
                     return f"{sink}: aborted event carries {sorted(tags)}"
